@@ -1,6 +1,6 @@
 (* Proofs about the client model (Client.v): with redirect following enabled, send ends at the final non-redirect
    response of the chain the origins define, for chains of every length; without it, at the first response. *)
-From Hv Require Import Prelude Bytes TablesHttp Http HttpRespSpec HttpRespProofs Client.
+From Hv Require Import Prelude Bytes TablesHttp TablesClient Http HttpRespSpec HttpRespProofs Client.
 From Coq Require Import Lia.
 Open Scope N_scope.
 
@@ -191,4 +191,21 @@ Proof.
   intros Ho Hok Hch Hs. unfold wire_net. rewrite Ho.
   rewrite <- (app_nil_r (chunked_encode up sizes body)).
   rewrite (parse_chunked_lemma hd up sizes body [] Hok Hch Hs). reflexivity.
+Qed.
+
+(* the generated client constants are the ones the property names (finite sweep over the status variants) *)
+Lemma client_tables :
+  map status_code CLIENT_FOLLOWED_STATUS = [301; 307; 302] /\
+  (forall s, s < status_count -> is_redirect s = true <-> In (status_code s) [301; 302; 307]) /\
+  CLIENT_RELATIVE_FIRST_BYTE = 47 /\
+  CLIENT_HTTP_PREFIX = [104;116;116;112;58;47;47] /\ CLIENT_HTTPS_PREFIX = [104;116;116;112;115;58;47;47] /\
+  CLIENT_HTTP_PORT = 80 /\ CLIENT_HTTPS_PORT = 443 /\ CLIENT_LOCATION_HEADER_IS_LOCATION = true.
+Proof.
+  split; [vm_compute; reflexivity|]. split; [|repeat split; vm_compute; reflexivity].
+  intros s Hs.
+  pose (P := fun s => Bool.eqb (is_redirect s) (existsb (N.eqb (status_code s)) [301; 302; 307])).
+  assert (Hb : P s = true) by (apply (status_sweep P); [vm_compute; reflexivity|exact Hs]).
+  unfold P in Hb. apply Bool.eqb_prop in Hb. rewrite Hb. rewrite existsb_exists. split.
+  - intros (x & Hin & Hx). apply N.eqb_eq in Hx. subst x. exact Hin.
+  - intros Hin. exists (status_code s). split; [exact Hin|apply N.eqb_refl].
 Qed.
